@@ -49,6 +49,10 @@ def ref_tokens(tpl):
     a = tpl.alpha
     for i in range(tpl.n):
         dom = tpl.doms[i]
+        if a.eps in dom:
+            # "no token here" (padding of a multi-token hole class)
+            if len(dom) == 1 or E.cur().decide_member((tpl.var, tpl.alias.get(i, i)), tpl.kvars[i], frozenset([a.eps])):
+                continue
         if len(dom) == 1:
             (j,) = dom
             t, v = a.syms[j]
@@ -996,19 +1000,28 @@ class RefParser:
         return e
 
     def string_literal(self):
+        """adjacent string literal tokens form one literal; if any piece has an encoding prefix the whole
+        literal has it (C99 6.4.5p4, C11 6.4.5p5).  Two DIFFERENT prefixes: implementation-defined, no claim."""
+        PREFIXED = ("WSTRING_LITERAL", "U8STRING_LITERAL", "U16STRING_LITERAL", "U32STRING_LITERAL")
+
+        def prefix_kind(t):
+            for k in PREFIXED:
+                if kin(t, (k,)):
+                    return k
+            return None
+
         t = self.take()
         if not kin(t, STRS):
             raise RefReject("string literal expected")
-        first_kind = t.kind
+        pk = prefix_kind(t)
         pieces = [t.val]
-        wide = not kin(t, ("STRING_LITERAL",))
         while self.at(*STRS):
             n = self.take()
-            if kin(n, ("STRING_LITERAL",)) == wide and True:
-                # mixing narrow and wide/unicode literals: implementation-defined in C99/C11; outside the reference
-                raise RefUnsupported("concatenation of differently prefixed string literals")
-            if wide and not (n.kind == first_kind if not isinstance(n.kind, SymStr) else n.kind == (first_kind if not isinstance(first_kind, SymStr) else first_kind.concretize())):
-                raise RefUnsupported("concatenation of differently prefixed string literals")
+            k = prefix_kind(n)
+            if k is not None:
+                if pk is not None and k != pk:
+                    raise RefUnsupported("concatenation of differently prefixed string literals")
+                pk = k
             pieces.append(n.val)
         return ("str", pieces)
 
